@@ -239,6 +239,18 @@ static void gen_data(vrng* r, uint8_t* buf, size_t n, int fam)
     case DF_REPBAIT: { /* repcode-history bait: periodic data whose period flips among a few values (rep1/rep2/rep3 traffic,
                           matches after 0 / 1 literal), interrupted by incompressible stretches that contain isolated short
                           matches at fresh distances (sub-block / raw-tail decisions with pending sequences) */
+        if (n >= 200000 && vr_chance(r, 1, 4)) {   /* sub-mode "one long literal run": [many short sequences alternating between two offsets] [noise of exactly L bytes,
+                                                     * L around 65536] [the same period again, repcode matches only], so that a block carries a sequence with a 16-bit-overflowing
+                                                     * literal length in the middle of a long repcode history, and the following block depends on that history */
+            size_t const p1 = 5 + vr_u(r, 3000), p2 = p1 + 1 + vr_u(r, 40); size_t const a = 20000 + vr_u(r, 40000); static const size_t Ls[] = { 65535, 65536, 65536, 65537, 65538, 65534 }; size_t const L = Ls[vr_u(r, 6)];
+            size_t pos = V_MIN(n, p2); vr_fill(r, buf, pos); size_t per = p1;
+            while (pos < n) {
+                if (pos >= a && pos < a + 64 && a + L + 1000 < n) { vr_fill(r, buf + pos, L); pos += L; continue; }      /* the long literal run (once) */
+                size_t run = 3 + vr_u(r, 30); if (run > n - pos) run = n - pos; for (size_t i = 0; i < run; i++) buf[pos + i] = buf[pos + i - per]; pos += run; if (pos >= n) break;
+                if (pos < a - 300) { if (vr_chance(r, 1, 6)) per = (per == p1) ? p2 : p1; }                                   /* both offsets enter the history before the run */
+                if (vr_chance(r, 2, 3)) { buf[pos] = (uint8_t)(buf[pos - per] ^ (1 + vr_u(r, 255))); pos++; }             /* one deviating byte: next match is a repcode after 1 literal */
+            }
+            break; }
         size_t per[3]; per[0] = vr_chance(r, 1, 3) ? 4 + vr_u(r, 300) : vr_chance(r, 1, 2) ? 1000 + vr_u(r, 70000) : 1 + vr_u(r, 200000);
         per[1] = per[0] + 1 + vr_u(r, 3); per[2] = per[0] > 8 ? per[0] - 1 - vr_u(r, 3) : per[0] + 7; int cur = 0;
         size_t const gapMax = 2 + vr_u(r, vr_chance(r, 1, 2) ? 40 : 600); int const islandPerMille = (int)vr_u(r, 4);
@@ -252,8 +264,9 @@ static void gen_data(vrng* r, uint8_t* buf, size_t n, int fam)
                 case 1: case 2: case 3: buf[pos] = (uint8_t)(buf[pos - p] ^ (1 + vr_u(r, 255))); pos++; break;     /* 1 deviating byte: rep1 after 1 literal */
                 default: break; }                                                                         /* nothing: consecutive matches, litLength 0 */
             if (pos < n && (int)vr_u(r, 1000) < islandPerMille) {
-                size_t isl = 500 + vr_u(r, 12000); if (isl > n - pos) isl = n - pos; vr_fill(r, buf + pos, isl);
-                int k = (int)vr_u(r, 4); while (k-- && isl > 64) { size_t const at = pos + 16 + vr_u64(r, isl - 48); size_t const ml = 4 + vr_u(r, 20); size_t const d = 1 + vr_u64(r, at - 1); if (d >= ml) memcpy(buf + at, buf + at - d, ml); }
+                size_t isl = 500 + vr_u(r, 12000); int k = (int)vr_u(r, 4);
+                if (vr_chance(r, 1, 3)) { static const size_t edge[] = { 65535, 65536, 65537, 65538, 32767, 32768, 131071, 131072, 16383, 16384 }; isl = edge[vr_u(r, 10)]; k = 0; }   /* literal runs of exactly the lengths where the length codes / 16-bit fields change */
+                if (isl > n - pos) isl = n - pos; vr_fill(r, buf + pos, isl); while (k-- && isl > 64) { size_t const at = pos + 16 + vr_u64(r, isl - 48); size_t const ml = 4 + vr_u(r, 20); size_t const d = 1 + vr_u64(r, at - 1); if (d >= ml) memcpy(buf + at, buf + at - d, ml); }
                 pos += isl; }
         }
         break; }
